@@ -135,7 +135,8 @@ ipc_pipe_fini(void *arg)
 {
 	ipc_pipe *p = arg;
 
-	ipc_pipe_stop(p);
+	// (The pipe was stopped by the reaper before its last reference
+	// could go; the endpoint may be gone by now, so do not touch it.)
 	nng_stream_free(p->conn);
 	nni_aio_fini(&p->rx_aio);
 	nni_aio_fini(&p->tx_aio);
